@@ -10,6 +10,9 @@ try:
     subprocess.run(["git", "-C", "/repo", "worktree", "add", "--detach", D + "/wt", "HEAD", "-q"], check=True)
     W = D + "/wt"
     ap = subprocess.run(["git", "-C", W, "apply", os.path.abspath(diff)], capture_output=True, text=True)
+    if ap.returncode:      # the tree has moved on since the patch was written: three-way merge against its base blobs
+        ap = subprocess.run(["git", "-C", W, "apply", "--3way", os.path.abspath(diff)], capture_output=True, text=True)
+        subprocess.run(["git", "-C", W, "reset", "-q"], capture_output=True)
     if ap.returncode:
         print("PATCH FAILED", ap.stderr); sys.exit(2)
     t = subprocess.run(["/venv/bin/python", "-m", "pytest", "-q", "-p", "no:cacheprovider", "--deselect", "tests/test_phase_predictor.py::TestPredictor::test_basic"],
